@@ -121,6 +121,11 @@ jcmd_jws_ver(int argc, char *argv[])
         return EXIT_FAILURE;
 
     io = jose_jws_ver_io(NULL, opt.io.obj, NULL, opt.keys, opt.all);
+    if (!io) {
+        fprintf(stderr, "Error initializing signature context!\n");
+        return EXIT_FAILURE;
+    }
+
     io = jcmd_jws_prep_io(&opt.io, io);
     if (!io) {
         fprintf(stderr, "Error initializing signature context!\n");
